@@ -97,7 +97,7 @@ func c05GetDirected(c *core.Ctx) {
 			}
 		})
 	}
-	ctx, cancel := context.WithCancel(context.Background())
+	ctx, cancel := c05Context(c.Rng.IntN(3))
 	defer cancel()
 	var asyncWG sync.WaitGroup
 	fire := func(blocking bool) {
@@ -319,7 +319,7 @@ func c05WaitCondDirected(c *core.Ctx) {
 			gate.Enter(3000)
 		}
 	})
-	ctx, cancel := context.WithCancel(context.Background())
+	ctx, cancel := c05Context(c.Rng.IntN(3))
 	defer cancel()
 	if len(events) == 1 && events[0] == "deadline" {
 		var dcancel context.CancelFunc
@@ -632,4 +632,21 @@ func c05BatchTrim(c *core.Ctx) {
 		c.Nontrivial()
 	}
 	c.Sig("batch-trim", max, target, pre, batch, commit, got, r.err != nil)
+}
+
+var errC05Cause = errors.New("c05 custom cancellation cause")
+
+// c05Context: a plain cancellable context, or (kind 1) one cancelled with a custom cause, or (kind 2) the child of one.
+// Whatever the kind, the error a cancelled wait has to report is ctx.Err() (context.Canceled), not the cause.
+func c05Context(kind int) (context.Context, context.CancelFunc) {
+	switch kind {
+	case 1:
+		ctx, cc := context.WithCancelCause(context.Background())
+		return ctx, func() { cc(errC05Cause) }
+	case 2:
+		parent, cc := context.WithCancelCause(context.Background())
+		ctx, cancel := context.WithCancel(parent)
+		return ctx, func() { cc(errC05Cause); cancel() }
+	}
+	return context.WithCancel(context.Background())
 }
